@@ -46,6 +46,12 @@ type scenario struct {
 	Svc      string    `json:"svc"`
 	Creds    []string  `json:"creds"`
 	Attempts []attempt `json:"attempts"`
+	// By > 0: a second connection (the bystander) logs in with a configured credential while the judged
+	// connection is open. 1, 2 = bystander opened before the judged connection, 3 = after it; the login
+	// always happens once both are open. The judged connection's expectations do not change: a login counts
+	// "on the same connection" only.
+	By     int     `json:"bystander,omitempty"`
+	ByCred attempt `json:"bystander_credential,omitempty"`
 }
 
 func allPairs() []attempt {
@@ -74,9 +80,9 @@ func scenarios(tier string, seed int64) []scenario {
 		if tier == "thorough" {
 			for _, cs := range small {
 				for _, a := range pairs {
-					out = append(out, scenario{svc, cs, []attempt{a}})
+					out = append(out, scenario{Svc: svc, Creds: cs, Attempts: []attempt{a}})
 					for _, b := range pairs {
-						out = append(out, scenario{svc, cs, []attempt{a, b}})
+						out = append(out, scenario{Svc: svc, Creds: cs, Attempts: []attempt{a, b}})
 					}
 				}
 			}
@@ -91,7 +97,7 @@ func scenarios(tier string, seed int64) []scenario {
 						u, p, _ := strings.Cut(cs[0], ":")
 						as = append(as, attempt{User: u, Pass: p})
 					}
-					out = append(out, scenario{svc, cs, as})
+					out = append(out, scenario{Svc: svc, Creds: cs, Attempts: as})
 				}
 			}
 		}
@@ -117,7 +123,7 @@ func scenarios(tier string, seed int64) []scenario {
 				a.DN = r.Bool()
 				as = append(as, a)
 			}
-			out = append(out, scenario{svc, cs, as})
+			out = append(out, scenario{Svc: svc, Creds: cs, Attempts: as})
 		}
 	}
 	// FTP cannot present an empty user or password (USER/PASS without parameter are syntax errors, not attempts)
@@ -129,7 +135,7 @@ func scenarios(tier string, seed int64) []scenario {
 	}
 	for _, u := range ftpUsers {
 		for _, p := range ftpPw {
-			out = append(out, scenario{"ftp", nil, []attempt{{User: u, Pass: p}}})
+			out = append(out, scenario{Svc: "ftp", Attempts: []attempt{{User: u, Pass: p}}})
 		}
 	}
 	for i := 0; i < n; i++ {
@@ -137,7 +143,37 @@ func scenarios(tier string, seed int64) []scenario {
 		for j := r.Range(1, 4); j > 0; j-- {
 			as = append(as, attempt{User: r.PickS(ftpUsers), Pass: r.PickS(ftpPw)})
 		}
-		out = append(out, scenario{"ftp", nil, as})
+		out = append(out, scenario{Svc: "ftp", Attempts: as})
+	}
+	// bystander scenarios (appended last so that the indexes of the others do not move)
+	nb := 60
+	if tier == "thorough" {
+		nb = 800
+	}
+	rb := core.NewRng(seed, "C12/bystander", 0)
+	for i := 0; i < nb; i++ {
+		by := pairs[rb.Intn(3*4)] // a non-empty user
+		cs := []string{credOf(by)}
+		if rb.Chance(1, 2) {
+			cs = append(cs, credOf(pairs[rb.Intn(len(pairs))]))
+		}
+		var as []attempt
+		for j := rb.Range(0, 2); j > 0; j-- {
+			a := pairs[rb.Intn(len(pairs))]
+			if refSuccess("ldap", cs, a.User, a.Pass) { // the judged connection never logs in itself
+				continue
+			}
+			as = append(as, a)
+		}
+		as = append(as, attempt{User: "guest", Pass: "wrong"})
+		out = append(out, scenario{Svc: "ldap", Creds: cs, Attempts: as, By: 1 + i%3, ByCred: by})
+	}
+	for i := 0; i < nb; i++ {
+		var as []attempt
+		for j := rb.Range(1, 3); j > 0; j-- {
+			as = append(as, attempt{User: rb.PickS(ftpUsers[1:]), Pass: rb.PickS(ftpPw)})
+		}
+		out = append(out, scenario{Svc: "ftp", Attempts: as, By: 1 + i%3, ByCred: attempt{User: "anonymous", Pass: "anonymous"}})
 	}
 	return out
 }
@@ -173,6 +209,8 @@ type scnObs struct {
 	Attempts []attemptObs `json:"attempts"`
 	AuthEvs  [][2]string  `json:"auth_events"` // (user, password) in order
 	Err      string       `json:"err,omitempty"`
+	ByReply  string       `json:"bystander_reply,omitempty"`
+	ByOK     bool         `json:"bystander_logged_in,omitempty"`
 }
 
 type params struct {
@@ -314,10 +352,24 @@ func runLDAP(srv *lab.Server, sc scenario) scnObs {
 	connSeq++
 	port := 20000 + connSeq%40000
 	ev0 := lab.Events.Len()
+	var by *lab.Client
+	byOpen := func() {
+		by = lab.NewClient(srv.L.DialTCP(lab.TCPAddr("10.0.0.1", 389), lab.TCPAddr("203.0.113.77", 10000+connSeq%40000)))
+		by.WaitIdle(300 * time.Millisecond)
+	}
+	if sc.By == 1 || sc.By == 2 {
+		byOpen()
+	}
 	cc := srv.L.DialTCP(lab.TCPAddr("10.0.0.1", 389), lab.TCPAddr("203.0.113.12", port))
 	cl := lab.NewClient(cc)
+	if sc.By > 0 {
+		cl.WaitIdle(300 * time.Millisecond)
+	}
+	if sc.By == 3 {
+		byOpen()
+	}
 	id := 1
-	rt := func(msg []byte) []byte {
+	rtOn := func(cl *lab.Client, msg []byte) []byte {
 		before := len(cl.Received())
 		if cl.Send(msg, 2*time.Second) != nil {
 			return nil
@@ -328,6 +380,13 @@ func runLDAP(srv *lab.Server, sc scenario) scnObs {
 			return nil
 		}
 		return got[before:]
+	}
+	rt := func(msg []byte) []byte { return rtOn(cl, msg) }
+	if sc.By > 0 {
+		rc := ldapResult(rtOn(by, gen.LDAPBind(9000, sc.ByCred.User, sc.ByCred.Pass)))
+		ob.ByReply = fmt.Sprintf("resultCode=%d", rc)
+		ob.ByOK = rc == 0
+		defer by.Close()
 	}
 	gate := func() string {
 		id++
@@ -385,10 +444,7 @@ func runFTP(srv *lab.Server, sc scenario) scnObs {
 	connSeq++
 	port := 20000 + connSeq%40000
 	ev0 := lab.Events.Len()
-	cc := srv.L.DialTCP(lab.TCPAddr("10.0.0.1", 21), lab.TCPAddr("203.0.113.12", port))
-	cl := lab.NewClient(cc)
-	cl.WaitIdle(300 * time.Millisecond)
-	rt := func(line string) string {
+	rtOn := func(cl *lab.Client, line string) string {
 		before := len(cl.Received())
 		if cl.Send([]byte(line+"\r\n"), 2*time.Second) != nil {
 			return ""
@@ -400,6 +456,29 @@ func runFTP(srv *lab.Server, sc scenario) scnObs {
 		}
 		return string(got[before:])
 	}
+	var by *lab.Client
+	byOpen := func() {
+		by = lab.NewClient(srv.L.DialTCP(lab.TCPAddr("10.0.0.1", 21), lab.TCPAddr("203.0.113.77", 10000+connSeq%40000)))
+		by.WaitIdle(300 * time.Millisecond)
+	}
+	if sc.By == 1 || sc.By == 2 {
+		byOpen()
+	}
+	cc := srv.L.DialTCP(lab.TCPAddr("10.0.0.1", 21), lab.TCPAddr("203.0.113.12", port))
+	cl := lab.NewClient(cc)
+	cl.WaitIdle(300 * time.Millisecond)
+	if sc.By == 3 {
+		byOpen()
+	}
+	if sc.By > 0 {
+		rtOn(by, "USER "+sc.ByCred.User)
+		rep := rtOn(by, "PASS "+sc.ByCred.Pass)
+		ob.ByReply = strings.TrimSpace(rep)
+		ob.ByOK = strings.HasPrefix(rep, "230")
+		rtOn(by, "CWD /")
+		defer by.Close()
+	}
+	rt := func(line string) string { return rtOn(cl, line) }
 	gi := 0
 	in := false
 	gate := func() string {
@@ -548,6 +627,9 @@ func (prop) Judge(b core.Batch, recs []core.Rec, exits []core.Exit) []core.Resul
 				out = append(out, res)
 				continue
 			}
+			if sc.By > 0 && !ob.ByOK {
+				fail("bystander-login-rejected", fmt.Sprintf("a second connection presenting the configured credential %q/%q was answered %q while another connection was open (mode %d)", sc.ByCred.User, sc.ByCred.Pass, ob.ByReply, sc.By))
+			}
 			// expected outcomes; for SSH a success ends the connection's attempts
 			var wantEvs [][2]string
 			loggedIn := false
@@ -581,7 +663,7 @@ func (prop) Judge(b core.Batch, recs []core.Rec, exits []core.Exit) []core.Resul
 				}
 				if sc.Svc != "ssh-simulator" {
 					if !loggedIn && o.GateBefore != "" && !strings.HasPrefix(o.GateBefore, "refused") {
-						fail("gated-before-login", fmt.Sprintf("a gated operation was %s before any successful login (before attempt %d)", o.GateBefore, i))
+						fail("gated-before-login"+byTag(sc), fmt.Sprintf("a gated operation was %s before any successful login on this connection (before attempt %d)%s", o.GateBefore, i, byNote(sc)))
 					}
 					realLogin := want && !anonymous
 					if realLogin {
@@ -591,7 +673,7 @@ func (prop) Judge(b core.Batch, recs []core.Rec, exits []core.Exit) []core.Resul
 						loggedIn = false
 					}
 					if !loggedIn && o.GateAfter != "" && !strings.HasPrefix(o.GateAfter, "refused") {
-						fail("gated-before-login", fmt.Sprintf("a gated operation was %s although no login has succeeded (after attempt %d)", o.GateAfter, i))
+						fail("gated-before-login"+byTag(sc), fmt.Sprintf("a gated operation was %s although no login has succeeded on this connection (after attempt %d)%s", o.GateAfter, i, byNote(sc)))
 					}
 				}
 				if sc.Svc == "ssh-simulator" && want {
@@ -617,6 +699,20 @@ func (prop) Judge(b core.Batch, recs []core.Rec, exits []core.Exit) []core.Resul
 		}
 	}
 	return out
+}
+
+func byTag(sc scenario) string {
+	if sc.By > 0 {
+		return "|while-another-connection-is-logged-in"
+	}
+	return ""
+}
+
+func byNote(sc scenario) string {
+	if sc.By > 0 {
+		return fmt.Sprintf("; another connection had logged in as %q (mode %d)", sc.ByCred.User, sc.By)
+	}
+	return ""
 }
 
 func credClass(sc scenario, a attempt) string {
